@@ -83,7 +83,14 @@ impl Debug for U { fn fmt(&self, f: &mut std::fmt::Formatter<'_>) -> std::fmt::R
 impl Task for T { type Output = u32; fn execute<C: Context>(&self, c: &mut C) -> u32 { run(self.0, c, 0) } }
 impl Task for U { type Output = u32; fn execute<C: Context>(&self, c: &mut C) -> u32 { run(self.0, c, 100_000) } }
 
+thread_local! { static ACTIVE: RefCell<Vec<(u8, u32)>> = RefCell::new(vec![]); }
+struct ActiveGuard;
+impl Drop for ActiveGuard { fn drop(&mut self) { ACTIVE.with(|a| { a.borrow_mut().pop(); }); } }
 fn run<C: Context>(id: u8, c: &mut C, tag: u32) -> u32 {
+  // a task that is entered while it is still executing would recurse without bound: stop the experiment instead
+  if ACTIVE.with(|a| a.borrow().contains(&(id, tag))) { panic!("HARNESS: task {} was executed a second time while it was still executing", id); }
+  ACTIVE.with(|a| a.borrow_mut().push((id, tag)));
+  let _guard = ActiveGuard;
   if PANIC_IN.with(|p| p.get()) == Some(id) { panic!("injected panic in task {}", id); }
   let steps = PROG.with(|p| p.borrow()[id as usize].clone());
   let mut acc: u32 = id as u32 + 1 + tag;
@@ -92,7 +99,8 @@ fn run<C: Context>(id: u8, c: &mut C, tag: u32) -> u32 {
   acc
 }
 fn mix(acc: &mut u32, v: u32) { *acc = acc.wrapping_mul(31).wrapping_add(v) % 1_000_003; }
-fn seen(kind: &str, subject: String, stamp: String) { SEEN.with(|s| s.borrow_mut().push((kind.to_string(), subject, stamp))); }
+fn seen(kind: &str, subject: String, stamp: String) { SEEN.with(|s| s.borrow_mut().push((kind.to_string(), subject, stamp, String::new()))); }
+fn seen_require(subject: String, stamp: String, returned: String) { SEEN.with(|s| s.borrow_mut().push(("require".to_string(), subject, stamp, returned))); }
 fn exec<C: Context>(steps: &[Step], c: &mut C, acc: &mut u32) {
   for s in steps {
     match s {
@@ -113,8 +121,8 @@ fn exec<C: Context>(steps: &[Step], c: &mut C, acc: &mut u32) {
         mix(acc, observed);
       }
       Step::Require(t, k) => {
-        if *k == 0 { let o = c.require(&T(*t), EqualsChecker); seen("require", format!("T({})", t), format!("{:?}", o)); mix(acc, o); }
-        else { c.require(&T(*t), AlwaysConsistent); seen("require", format!("T({})", t), "()".to_string()); }
+        if *k == 0 { let o = c.require(&T(*t), EqualsChecker); seen_require(format!("T({})", t), format!("{:?}", o), format!("{:?}", o)); mix(acc, o); }
+        else { let o = c.require(&T(*t), AlwaysConsistent); seen_require(format!("T({})", t), "()".to_string(), format!("{:?}", o)); }
       }
       Step::Write(r, add) => {
         let val = (*acc as u8).wrapping_add(*add);
@@ -139,7 +147,7 @@ thread_local! {
   /// what the harness knows the map to hold right now (external changes and task writes), for verdict recomputation
   static SHADOW: RefCell<HashMap<u8, u8>> = RefCell::new(HashMap::new());
   /// what the executing tasks saw / got back, in order: (kind, subject, stamp the dependency must carry)
-  static SEEN: RefCell<Vec<(String, String, String)>> = RefCell::new(vec![]);
+  static SEEN: RefCell<Vec<(String, String, String, String)>> = RefCell::new(vec![]);
   /// (task, output) of every execution that really ran to completion
   static RAN: RefCell<Vec<(String, String)>> = RefCell::new(vec![]);
 }
@@ -297,6 +305,15 @@ impl<'m> Walk<'m> {
     Ok(())
   }
 }
+/// does task `a` (transitively) require task `b` according to the dependencies of the latest executions?
+fn model_reaches(m: &Model, a: &str, b: &str) -> bool {
+  let mut seen: Vec<String> = vec![]; let mut st: Vec<String> = vec![a.to_string()];
+  while let Some(x) = st.pop() {
+    if seen.contains(&x) { continue; } seen.push(x.clone());
+    if let Some(ds) = m.deps.get(&x) { for d in ds { if d.kind == "require" { if d.subject == b { return true; } st.push(d.subject.clone()); } } }
+  }
+  false
+}
 /// walks one session; `strict` sessions returned normally and are held to the trace obligations
 pub fn walk_session(m: &mut Model, ev: &[Evt], strict: bool, top_down: bool) -> Result<(), Fail> {
   let t = tree(ev);
@@ -312,8 +329,8 @@ impl Rng { pub fn next(&mut self) -> u64 { self.0 ^= self.0 << 13; self.0 ^= sel
 const SOURCES: u8 = 2;   // resources 0,1 are never written by tasks; 2,3 may be generated
 /// a well-formed program: requires go to higher task ids (no cycle); each generated resource has one writer; a reader of a
 /// generated resource requires its writer first; one checker per target per execution
-pub fn gen_program(rng: &mut Rng) -> (Vec<Vec<Step>>, [Option<u8>; 2]) {
-  let n = 2 + rng.below(4);
+pub fn gen_program(rng: &mut Rng) -> (Vec<Vec<Step>>, [Option<u8>; 2]) { let n = 2 + rng.below(4); gen_program_n(rng, n) }
+pub fn gen_program_n(rng: &mut Rng, n: usize) -> (Vec<Vec<Step>>, [Option<u8>; 2]) {
   let mut writer: [Option<u8>; 2] = [None, None];
   for g in 0..2 { if rng.below(3) > 0 { writer[g] = Some(rng.below(n) as u8); } }
   let mut prog = vec![];
@@ -340,7 +357,7 @@ pub fn gen_program(rng: &mut Rng) -> (Vec<Vec<Step>>, [Option<u8>; 2]) {
   (prog, writer)
 }
 
-fn panic_msg(e: Box<dyn std::any::Any + Send>) -> String { e.downcast_ref::<String>().cloned().or_else(|| e.downcast_ref::<&str>().map(|s| s.to_string())).unwrap_or_default() }
+fn panic_msg(e: Box<dyn std::any::Any + Send>) -> String { ACTIVE.with(|a| a.borrow_mut().clear()); e.downcast_ref::<String>().cloned().or_else(|| e.downcast_ref::<&str>().map(|s| s.to_string())).unwrap_or_default() }
 
 /// from-scratch build of `root` on a fresh instance holding the same resource values
 fn fresh_build(m: &HashMap<Res, u8>, root: u8) -> Result<(u32, Vec<String>, HashMap<Res, u8>), String> {
@@ -354,7 +371,7 @@ fn fresh_build(m: &HashMap<Res, u8>, root: u8) -> Result<(u32, Vec<String>, Hash
 }
 
 #[derive(Clone, Debug)]
-pub enum Act { Set(u8, u8), Del(u8), TopDown(u8), TopDownFlaky(u8), BottomUp, PanicIn(u8, u8) }
+pub enum Act { Set(u8, u8), Del(u8), TopDown(u8), TopDownFlaky(u8), BottomUp, BottomUpFlaky, PanicIn(u8, u8) }
 
 /// obligations on the stream of one session that returned: nesting, composite fan-out, executions, stamps
 fn stream_obligations(pie: &P) -> Result<(), Fail> {
@@ -365,12 +382,15 @@ fn stream_obligations(pie: &P) -> Result<(), Fail> {
   let ends: Vec<(String, String)> = log0.ev.iter().filter(|e| !e.start && e.kind == "execute").map(|e| (e.subject.clone(), e.output.clone())).collect();
   if ran != ends { fail!("C17", "C17.bounded.every_execution_appears_once_with_its_output", "executions that ran {:?}, execute-end events {:?}", ran, ends); }
   // stamps of the dependencies created inside executing tasks are what the task saw / wrote / got back
-  let mut depth = 0i32; let mut got: Vec<(String, String, String)> = vec![];
+  let mut depth = 0i32; let mut got: Vec<(String, String, String, String)> = vec![];
   for e in &log0.ev {
     if e.kind == "execute" { depth += if e.start { 1 } else { -1 }; }
-    if !e.start && depth > 0 && (e.kind == "read" || e.kind == "write" || e.kind == "require") { got.push((e.kind.to_string(), e.subject.clone(), e.stamp.clone())); }
+    if !e.start && depth > 0 && (e.kind == "read" || e.kind == "write" || e.kind == "require") { got.push((e.kind.to_string(), e.subject.clone(), e.stamp.clone(), if e.kind == "require" { e.output.clone() } else { String::new() })); }
   }
   let seen = SEEN.with(|s| s.borrow().clone());
+  for (i, (g, w)) in got.iter().zip(seen.iter()).enumerate() {
+    if g.0 == "require" && w.0 == "require" && g.1 == w.1 && g.3 != w.3 { fail!("C17", "C17.bounded.require_end_carries_the_returned_value", "require-end event #{} of {} carries output {}, the caller got {}", i, g.1, g.3, w.3); }
+  }
   if got != seen {
     let i = got.iter().zip(seen.iter()).position(|(a, b)| a != b).unwrap_or(got.len().min(seen.len()));
     fail!("C09", "C09.bounded.stamp_is_what_the_task_saw", "dependency #{}: stamped {:?}, the task saw {:?}", i, got.get(i), seen.get(i));
@@ -437,14 +457,48 @@ pub fn run_case(prog: &Vec<Vec<Step>>, hist: &[Act]) -> Result<(), Fail> {
         walk_session(&mut model, &ev, ok, true)?;
         // (the following actions of the history check that the instance is still usable and sound)
       }
-      Act::BottomUp => {
+      Act::BottomUp | Act::BottomUpFlaky => {
+        let flaky = matches!(a, Act::BottomUpFlaky);
         clear_logs(&mut pie); sync_shadow(&mut pie);
         let ch = changed.clone();
-        let r = catch_unwind(AssertUnwindSafe(|| { let mut s = pie.new_session(); let mut b = s.create_bottom_up_build(); for r in &ch { b.schedule_tasks_affected_by(&Res(*r)); } b.update_affected_tasks(); }));
-        if let Err(e) = r { let m = panic_msg(e); if m.starts_with("BUG") { fail!("C19", "C19.bounded.no_internal_invariant_error", "bottom-up build panicked: {}", m); } fail!("C20", "C20.bounded.well_formed_program_never_aborts", "bottom-up build of a well-formed program panicked: {}", m); }
+        FAIL_CHECK.with(|f| f.set(flaky));
+        let r = catch_unwind(AssertUnwindSafe(|| { let mut s = pie.new_session(); { let mut b = s.create_bottom_up_build(); for r in &ch { b.schedule_tasks_affected_by(&Res(*r)); } b.update_affected_tasks(); } let n_errs = s.dependency_check_errors().len(); n_errs }));
+        FAIL_CHECK.with(|f| f.set(false));
+        let errs = match r { Ok(n) => n, Err(e) => { let m = panic_msg(e); if flaky { fail!("C18", "C18.bounded.failed_check_never_aborts_the_build", "bottom-up build with failing checkers panicked: {}", m); } if m.starts_with("BUG") { fail!("C19", "C19.bounded.no_internal_invariant_error", "bottom-up build panicked: {}", m); } fail!("C20", "C20.bounded.well_formed_program_never_aborts", "bottom-up build of a well-formed program panicked: {}", m); } };
         stream_obligations(&pie)?;
         let ev = pie.tracker().0.ev.clone();
-        walk_session(&mut model, &ev, false, false)?;
+        // scheduling follows the verdict of the dependency's own checker: not consistent (or failed) <=> `schedule` is the next event
+        for (i, e) in ev.iter().enumerate() {
+          if !e.start && (e.kind == "check_read" || e.kind == "check_req") {
+            let next_is_schedule = ev.get(i + 1).map(|n| n.kind == "schedule" && n.subject == e.subject).unwrap_or(false);
+            if e.verdict == "error" && !next_is_schedule { fail!("C18", "C18.bounded.failed_check_schedules_the_task", "the check of a dependency of {} failed with an error, but the task was not scheduled", e.subject); }
+            if e.verdict == "inconsistent" && !next_is_schedule { fail!("C09", "C09.bounded.inconsistent_dependency_schedules_its_task", "a dependency of {} was reported inconsistent, but the task was not scheduled", e.subject); }
+            if e.verdict == "consistent" && next_is_schedule { fail!("C04", "C04.bounded.consistent_dependency_does_not_schedule", "a dependency of {} was reported consistent, yet the task was scheduled", e.subject); }
+          }
+          if e.kind == "schedule" {
+            let prev_ok = i > 0 && !ev[i - 1].start && (ev[i - 1].kind == "check_read" || ev[i - 1].kind == "check_req") && ev[i - 1].subject == e.subject && ev[i - 1].verdict != "consistent";
+            if !prev_ok { fail!("C04", "C04.bounded.scheduled_only_for_an_inconsistent_dependency", "{} was scheduled without a preceding inconsistent check of one of its dependencies", e.subject); }
+            if !ev[i..].iter().any(|x| x.start && x.kind == "execute" && x.subject == e.subject) && !ev[..i].iter().any(|x| x.start && x.kind == "execute" && x.subject == e.subject) { fail!("C04", "C04.bounded.scheduled_task_is_executed", "{} was scheduled but never executed in this build", e.subject); }
+          }
+        }
+        let failed_checks = ev.iter().filter(|e| !e.start && e.verdict == "error").count();
+        if errs != failed_checks { fail!("C18", "C18.bounded.check_errors_are_reported", "{} checks failed with an error during the bottom-up build, the session reports {} dependency check errors", failed_checks, errs); }
+        // order: a scheduled task is never popped for execution while a scheduled task it (transitively) requires is still waiting
+        {
+          let mut waiting: Vec<String> = vec![]; let mut depth = 0i32; let mut top_start = 0usize;
+          for (i, e) in ev.iter().enumerate() {
+            if e.kind == "schedule" && !waiting.contains(&e.subject) { waiting.push(e.subject.clone()); }
+            if e.kind == "execute" && e.start {
+              if depth == 0 {
+                top_start = i;
+                for y in &waiting { if *y != e.subject && model_reaches(&model, &e.subject, y) { fail!("C04", "C04.bounded.scheduled_task_not_executed_before_a_scheduled_dependency", "{} was executed while {} -- a scheduled task it requires -- was still waiting", e.subject, y); } }
+              }
+              waiting.retain(|w| *w != e.subject);
+              depth += 1;
+            }
+            if e.kind == "execute" && !e.start { depth -= 1; if depth == 0 { walk_session(&mut model, &ev[top_start..=i], false, false)?; } }
+          }
+        }
         let ex = pie.tracker().0.executed();
         for (i, e) in ex.iter().enumerate() { if ex[..i].contains(e) { fail!("C04", "C04.bounded.executed_at_most_once_per_build", "{} executed twice in one bottom-up build", e); } }
         changed.clear();
@@ -474,11 +528,22 @@ pub fn run_case_attributed(prog: &Vec<Vec<Step>>, hist: &[Act]) -> Result<(), Fa
   }
 }
 
+/// histories dominated by bottom-up builds after changes of both source resources
+pub fn gen_bottom_up_history(rng: &mut Rng, rounds: usize) -> Vec<Act> {
+  let mut h = vec![Act::Set(0, rng.below(4) as u8), Act::Set(1, rng.below(4) as u8), Act::TopDown(0), Act::TopDown(1)];
+  for _ in 0..rounds {
+    h.push(Act::Set(0, rng.below(6) as u8)); if rng.below(3) > 0 { h.push(Act::Set(1, rng.below(6) as u8)); }
+    h.push(if rng.below(8) == 0 { Act::BottomUpFlaky } else { Act::BottomUp });
+    if rng.below(2) == 0 { h.push(Act::TopDown(rng.below(3) as u8)); }
+  }
+  h.push(Act::TopDown(0));
+  h
+}
 pub fn gen_history(rng: &mut Rng, len: usize) -> Vec<Act> {
   let mut h = vec![Act::Set(0, rng.below(4) as u8), Act::Set(1, rng.below(4) as u8), Act::TopDown(rng.below(6) as u8)];
   for _ in 0..len {
     h.push(match rng.below(12) { 0..=3 => Act::Set(rng.below(SOURCES as usize) as u8, rng.below(5) as u8), 4 => Act::Del(rng.below(SOURCES as usize) as u8),
-      5..=7 => Act::TopDown(rng.below(6) as u8), 8 => Act::TopDownFlaky(rng.below(6) as u8), 9 => Act::BottomUp, 10 => Act::PanicIn(rng.below(6) as u8, rng.below(6) as u8), _ => Act::Set(2 + rng.below(2) as u8, rng.below(5) as u8) });
+      5..=7 => Act::TopDown(rng.below(6) as u8), 8 => if rng.below(3) == 0 { Act::BottomUpFlaky } else { Act::TopDownFlaky(rng.below(6) as u8) }, 9 => Act::BottomUp, 10 => Act::PanicIn(rng.below(6) as u8, rng.below(6) as u8), _ => Act::Set(2 + rng.below(2) as u8, rng.below(5) as u8) });
   }
   h.push(Act::TopDown(0));
   h
@@ -486,6 +551,7 @@ pub fn gen_history(rng: &mut Rng, len: usize) -> Vec<Act> {
 
 // ---- injected violations (C05, C06, C07) ----------------------------------------------------------------------------
 pub fn violation_cases() -> Vec<(&'static str, &'static str, Vec<Vec<Step>>, Vec<Act>, &'static str)> {
+  // (values: a task without reads starts from acc = id + 1 and writes acc + constant)
   use Step::*;
   vec![
     ("C05", "C05.bounded.hidden_read_after_write_aborts", vec![vec![Require(1, 1), Require(2, 1)], vec![Write(2, 1)], vec![Read(2, 0)]], vec![Act::TopDown(0)], "Hidden dependency"),
@@ -502,25 +568,45 @@ pub fn violation_cases() -> Vec<(&'static str, &'static str, Vec<Vec<Step>>, Vec
     ("C07", "C07.bounded.cycle_of_two_aborts", vec![vec![Require(1, 0)], vec![Require(0, 0)]], vec![Act::TopDown(0)], "Cyclic task dependency"),
     ("C07", "C07.bounded.cycle_of_three_aborts", vec![vec![Require(1, 0)], vec![Require(2, 0)], vec![Require(0, 0)]], vec![Act::TopDown(0)], "Cyclic task dependency"),
     ("C07", "C07.bounded.cycle_through_a_task_that_read_a_generated_resource_aborts", vec![vec![Require(1, 0)], vec![Require(3, 1), Read(2, 0), Require(2, 0)], vec![Require(0, 0)], vec![Write(2, 1)]], vec![Act::TopDown(0)], "Cyclic task dependency"),
+    // a cycle that exists only for some resource value, closed in a later session by tasks that have cached outputs
+    ("C07", "C07.bounded.cycle_appearing_in_a_later_session_aborts", vec![vec![Require(1, 0)], vec![Require(2, 0)], vec![Read(0, 0), IfOdd(vec![Require(0, 0)], vec![])]], vec![Act::Set(0, 0), Act::TopDown(0), Act::TopDown(0), Act::Set(0, 1), Act::TopDown(0)], "Cyclic task dependency"),
+    ("C07", "C07.bounded.cycle_to_the_middle_appearing_in_a_later_session_aborts", vec![vec![Require(1, 0)], vec![Require(2, 0)], vec![Read(0, 0), IfOdd(vec![Require(1, 0)], vec![])]], vec![Act::Set(0, 0), Act::TopDown(0), Act::Set(0, 1), Act::TopDown(0)], "Cyclic task dependency"),
+    ("C07", "C07.bounded.cycle_appearing_in_a_later_session_entered_in_the_middle_aborts", vec![vec![Require(1, 0)], vec![Require(2, 0)], vec![Read(0, 0), IfOdd(vec![Require(0, 0)], vec![])]], vec![Act::Set(0, 0), Act::TopDown(0), Act::Set(0, 1), Act::TopDown(1)], "Cyclic task dependency"),
     ("C07", "C07.bounded.self_cycle_aborts", vec![vec![Require(0, 0)]], vec![Act::TopDown(0)], "Cyclic task dependency"),
   ]
+}
+/// for the cases whose violation is diagnosed in `Context::write` of a task without reads: the value that write would store
+fn aborted_write_value(prog: &Vec<Vec<Step>>, ob: &str) -> Option<u8> {
+  let writer: usize = match ob {
+    "C05.bounded.hidden_write_after_read_aborts" => 1,
+    "C06.bounded.overlapping_write_aborts" => 2,
+    "C06.bounded.overlap_with_requirer_that_wrote_first_aborts" | "C06.bounded.overlapping_write_in_later_session_aborts" => 1,
+    _ => return None,
+  };
+  match prog[writer].iter().find(|s| matches!(s, Step::Write(2, _))) { Some(Step::Write(_, add)) => Some((writer as u8 + 1).wrapping_add(*add)), _ => None }
 }
 /// the last action of `hist` must abort with `expect`; earlier ones must succeed; afterwards the instance must still be usable
 pub fn run_violation(prog: &Vec<Vec<Step>>, hist: &[Act], expect: &str, prop: &'static str, ob: &'static str) -> Result<(), Fail> {
   PROG.with(|p| *p.borrow_mut() = prog.clone()); FAIL_CHECK.with(|f| f.set(false)); PANIC_IN.with(|p| p.set(None));
   let mut pie = new_pie();
   thread_local! { static DEPTH: Cell<u32> = Cell::new(0); }
+  let last_build = hist.iter().rposition(|a| matches!(a, Act::TopDown(_))).unwrap_or(0);
   for (i, a) in hist.iter().enumerate() {
+    if let Act::Set(r, v) = a { pie.resource_state_mut::<Res>().get_global_map_mut().insert(Res(*r), *v); }
     if let Act::TopDown(root) = a {
       let before = map_of(&mut pie);
       let r = catch_unwind(AssertUnwindSafe(|| pie.new_session().require(&T(*root))));
-      let last = i + 1 == hist.len();
+      ACTIVE.with(|a| a.borrow_mut().clear());
+      let last = i == last_build;
       match (r, last) {
         (Ok(_), false) => {}
         (Ok(o), true) => fail!(prop, ob, "the build returned {} instead of aborting with `{}`", o, expect),
         (Err(e), l) => { let m = panic_msg(e); if !l || !m.starts_with(expect) { fail!(prop, ob, "expected {} `{}`, got panic `{}`", if l { "abort" } else { "no abort before the last build; expected later" }, expect, m); }
-          // abort on the writing side happens before the resource is modified
-          if expect != "Cyclic task dependency" && ob.contains("write_after_read") { let after = map_of(&mut pie); if after.get(&Res(2)) != before.get(&Res(2)) { fail!(prop, "C05.bounded.abort_before_the_resource_is_modified", "resource 2 was modified ({:?} -> {:?}) although the build aborted", before.get(&Res(2)), after.get(&Res(2))); } }
+          // an abort diagnosed on the writing side of `Context::write` happens before the resource is modified
+          if let Some(w) = aborted_write_value(prog, ob) {
+            let after = map_of(&mut pie);
+            if after.get(&Res(2)) == Some(&w) && before.get(&Res(2)) != Some(&w) { fail!(prop, if prop == "C06" { "C06.bounded.abort_before_the_resource_is_modified" } else { "C05.bounded.abort_before_the_resource_is_modified" }, "resource 2 holds {:?}, the value of the write that was diagnosed ({:?} before the build): it was modified although the build aborted", after.get(&Res(2)), before.get(&Res(2))); }
+          }
         }
       }
     }
@@ -535,6 +621,47 @@ pub fn run_violation(prog: &Vec<Vec<Step>>, hist: &[Act], expect: &str, prop: &'
   for _ in 0..2 {
     let r = catch_unwind(AssertUnwindSafe(|| pie.new_session().require(&T(0))));
     if let Err(e) = r { let m = panic_msg(e); if !(m.starts_with("Hidden dependency") || m.starts_with("Overlapping write") || m.starts_with("Cyclic task dependency")) { fail!("C19", "C19.bounded.no_internal_invariant_error", "building the root again after the abort failed with: {}", m); } }
+  }
+  Ok(())
+}
+
+// ---- C16: the same history on fresh instances gives the same event stream ---------------------------------------------------
+/// a requirer that starts requiring `Sum` (which requires `n` leaves) only after resource 0 changed, and is re-executed first in a
+/// bottom-up build in which all leaves are scheduled: the order in which the leaves run must not depend on the instance
+pub fn determinism_case(n: usize) -> (Vec<Vec<Step>>, Vec<Act>) {
+  use Step::*;
+  let mut prog: Vec<Vec<Step>> = vec![];
+  prog.push(vec![Read(0, 0), IfOdd(vec![Require(1, 0)], vec![])]);                 // T0 "report": requires T1 only for some values of resource 0
+  prog.push((0..n).map(|i| Require(2 + i as u8, 0)).collect());                    // T1 "sum": requires all leaves
+  for _ in 0..n { prog.push(vec![Read(1, 0)]); }                                   // leaves: all read resource 1
+  // T0: acc = 1; after Read(0): acc = 31 + seen; seen = v + 1; odd acc <=> v + 1 even <=> v odd
+  let hist = vec![Act::Set(0, 0), Act::Set(1, 1), Act::TopDown(1), Act::TopDown(0), Act::Set(1, 2), Act::Set(0, 1), Act::BottomUp, Act::TopDown(0), Act::TopDown(1)];
+  (prog, hist)
+}
+fn stream_of(prog: &Vec<Vec<Step>>, hist: &[Act]) -> Result<Vec<String>, String> {
+  PROG.with(|p| *p.borrow_mut() = prog.clone()); FAIL_CHECK.with(|f| f.set(false)); PANIC_IN.with(|p| p.set(None));
+  let n = prog.len() as u8;
+  let mut pie = new_pie(); let mut changed: Vec<u8> = vec![]; let mut out: Vec<String> = vec![];
+  for a in hist {
+    match a {
+      Act::Set(r, v) => { pie.resource_state_mut::<Res>().get_global_map_mut().insert(Res(*r), *v); if !changed.contains(r) { changed.push(*r); } }
+      Act::Del(r) => { pie.resource_state_mut::<Res>().get_global_map_mut().remove(&Res(*r)); if !changed.contains(r) { changed.push(*r); } }
+      Act::TopDown(root) | Act::TopDownFlaky(root) => { let root = *root % n; let r = catch_unwind(AssertUnwindSafe(|| pie.new_session().require(&T(root)))); match r { Ok(o) => out.push(format!("returned {}", o)), Err(e) => return Err(panic_msg(e)) } changed.clear(); }
+      Act::BottomUp | Act::BottomUpFlaky => { let ch = changed.clone(); let r = catch_unwind(AssertUnwindSafe(|| { let mut s = pie.new_session(); let mut b = s.create_bottom_up_build(); for r in &ch { b.schedule_tasks_affected_by(&Res(*r)); } b.update_affected_tasks(); })); if let Err(e) = r { return Err(panic_msg(e)); } changed.clear(); }
+      Act::PanicIn(..) => {}
+    }
+  }
+  for e in &pie.tracker().0.ev { out.push(format!("{} {} {} [{}|{}|{}|{}]", if e.start { "start" } else { "end" }, e.kind, e.subject, e.checker, e.stamp, e.verdict, e.output)); }
+  Ok(out)
+}
+pub fn run_determinism(prog: &Vec<Vec<Step>>, hist: &[Act], repeats: usize) -> Result<(), Fail> {
+  let first = match stream_of(prog, hist) { Ok(s) => s, Err(m) => fail!("C20", "C20.bounded.well_formed_program_never_aborts", "history aborted: {}", m) };
+  for k in 1..repeats {
+    let s = match stream_of(prog, hist) { Ok(s) => s, Err(m) => fail!("C16", "C16.bounded.same_history_same_event_stream", "replay {} aborted ({}), the first run did not", k, m) };
+    if s != first {
+      let i = s.iter().zip(first.iter()).position(|(a, b)| a != b).unwrap_or(s.len().min(first.len()));
+      fail!("C16", "C16.bounded.same_history_same_event_stream", "replay {} on a fresh instance differs from the first run at event {}: `{}` vs `{}`", k, i, s.get(i).cloned().unwrap_or_default(), first.get(i).cloned().unwrap_or_default());
+    }
   }
   Ok(())
 }
